@@ -4,4 +4,5 @@ import "verif/harness/internal/xmlx"
 
 func init() {
 	register("xml-canon", xmlx.Canon)
+	register("xml-signed", xmlx.Signed)
 }
